@@ -6,6 +6,10 @@ import json, os
 ALL = ["C%02d" % i for i in range(1, 53)]
 
 CLAIMED = {
+ "C42": dict(
+   text="Kernel: the canonical-order comparators of CCF's deterministic mode (bytewiseFieldSorter, bytewiseCadenceTypeIDSorter, bytewiseKeyValuePairSorter) on three arbitrary pairwise-distinct keys of 0..3 bytes are strict total orders (asymmetric, total, transitive) equal to the reference order, and agree with the predicates the decoder enforces (stringsAreSortedBytewise / bytesAreSortedBytewise), which reject duplicates; hence the sorted sequence and the encoding do not depend on input order.",
+   note="Keys <= 3 bytes. CBOR encoding/decoding, value round trips and decoder robustness (fxamacker/cbor, reflection-free but streaming over value graphs) are outside the claim.",
+   design="5 C42"),
  "C18": dict(
    text="Kernel: for the 24 numeric types, Bool, Address and Path (identifier <= 3 bytes): the real Equal equals mathematical equality and Less/LessEqual/Greater/GreaterEqual the mathematical order for every operand pair (so ==, < are an equivalence / total order consistent with each other), and HashInput bytes are identical exactly for equal values (natives: two symbolic values; big integers: the payload decodes back to the value and has the canonical length), including the scratch-buffer vs allocation branch.",
    note="Operands of equal type, full width (Int/UInt hash input: |x| < 2^128). Strings/characters (NFC), type values, enums, optionals, containers and the atree dictionary itself are outside the claim.",
@@ -89,7 +93,6 @@ NA_REASON = {
  "C37": "not built yet (stretch kernel: lexer on <=3 bytes)",
  "C38": "printer round trip AST -> Doc -> text -> parser", "C39": "formatter round trip over ASTs",
  "C41": "JSON codec uses encoding/json and reflection over value graphs",
- "C42": "not built yet (kernel: CCF canonical order comparators)",
  "C43": "JSON vs CCF agreement over value graphs",
  "C44": "fxamacker/cbor streaming codec; cross-version stability needs a stored corpus",
  "C45": "not built yet (stretch kernel: location type-ID round trip)",
